@@ -295,8 +295,10 @@ AddValueClass == /\ Editable /\ "libClass" \notin Names(s.others)
                                         attrs |-> NewIL \cup {<<"allowedCharacter", "letters">>, <<"allowedCharacter", "digits">>}]}]
                  /\ Log(<<"AddValueClass", "libClass">>)
 UnitOpts == {{}, {<<"conversionFactor", "0.01">>}, {<<"SIUnit", TRUEV>>, <<"unitSymbol", TRUEV>>}}
+\* a unit name may hold characters beyond the name class when the unit itself allows them (as the bundled m^2 / $ do)
+UnitChars(n) == IF n = "jif/fy" THEN {<<"allowedCharacter", "slash">>} ELSE {}
 AddUnit(u, n, o) == /\ Editable /\ n \notin Names(s.units)
-                    /\ s' = [s EXCEPT !.units = @ \cup {[name |-> n, uclass |-> u.name, attrs |-> NewIL \cup o, desc |-> "none"]}]
+                    /\ s' = [s EXCEPT !.units = @ \cup {[name |-> n, uclass |-> u.name, attrs |-> NewIL \cup o \cup UnitChars(n), desc |-> "none"]}]
                     /\ Log(<<"AddUnit", u.name, n, o>>)
 Merge == /\ Editable /\ Partnered(s)
          /\ s' = [s EXCEPT !.hdr.library = Append(@, Other),
